@@ -6,6 +6,11 @@ VERIF = os.path.dirname(os.path.dirname(os.path.abspath(__file__)))
 ALL = ["C%02d" % i for i in range(1, 21)]
 
 CLAIMED = {
+ "C16": dict(
+   technique="TLA+ spec Health.tla (per node x health domain alive flag and failure counters, per-address death-transition counter with escalation, reload muting; Thresholds invariant and DeathRule / ReviveRule / MutedRule action properties) model-checked with TLC; simulated histories replayed through the production report/check entry points of real Dialers registered in real AliveDialerSets with an independent oracle of the documented thresholds",
+   text="TLC checks over all histories of length 5 (2 nodes sharing a proxy address, 4 domains, real thresholds 1/3/10/50 reached through failure bursts of size 1 and threshold-1) that death happens exactly at a threshold, a forced report or the 3-death escalation, that revivals clear the counts and that muted failures change nothing. Histories of length 14 are replayed on real Dialers through check(), ReportUnavailable(+Transactional/Forced), ReportAvailableTraffic and Begin/EndReloadProxyFailureSuppression; after every step all six domains of both nodes, the transition-callback sequence, the per-domain group membership and the group's connectivity callback (kernel bit) are compared with the documented behaviour. This found the data-UDP connectivity bit never being set again (repaired by a fix: commit).",
+   note="Reload snapshot/restore and EnsureReloadSelectionFloor are not yet driven; the connectivity bit is observed at the AliveDialerSet callback that control/connectivity.go turns into the map write. Trusted: TLC.",
+   design="§3 C16"),
  "C15": dict(
    technique="TLA+ spec AliveSet.tla (property layer ChosenAlive / NobodyBeatsByTol / TolRule action property; NotifyLatencyChange, calcMinLatency, SetSelectionPolicy transcribed as implementation layer) model-checked exhaustively with TLC; simulated histories replayed on real AliveDialerSet/Dialer objects with an independent property-layer oracle and the model's per-step choice as drift oracle",
    text="TLC checks over all histories (3 nodes, 4 latency values, per-node offsets, tolerance 0/2/3, policy switches, depth 6) that the transcribed algorithm keeps the chosen node alive, that no alive measured node beats it by the tolerance, and that the choice only moves for the reasons the property lists. Histories of length 10 are replayed on the real set (latency samples appended to the real Dialer collections, NotifyLatencyChange / SetSelectionPolicy), and after every step GetMinLatency (with every exclusion), GetRand/GetRandExcluded and Len are judged against the property statement from the harness's own bookkeeping.",
